@@ -27,11 +27,15 @@ def snap(R, t, d):
 
 def IntervalTier_dejitter(self, referenceTier, maxDifference):
     R = referenceTier.timestamps
+    if len(R) == 0:
+        raise errors.ArgumentError("")
     moved = [Interval(snap(R, e.start, maxDifference), snap(R, e.end, maxDifference), e.label) for e in self.entries]
     return IntervalTier(self.name, moved, self.minTimestamp, self.maxTimestamp)
 
 
 def PointTier_dejitter(self, referenceTier, maxDifference):
     R = referenceTier.timestamps
+    if len(R) == 0:
+        raise errors.ArgumentError("")  # nothing to align to: an error case of the property
     moved = [Point(snap(R, p.time, maxDifference), p.label) for p in self.entries]
     return PointTier(self.name, moved, self.minTimestamp, self.maxTimestamp)
